@@ -5,7 +5,8 @@ import MotoModel.Proofs.TapeInject
 namespace Moto.Tape
 open Moto
 
-def AllReadable (w : World) (srcs : List Str) : Prop := ∀ s ∈ srcs, ∃ data, w (classify s).2 = some data
+/-- every source is accepted (it is not the archive, its name is ascii) and designates a readable file -/
+def AllReadable (w : World) (archive : Str) (srcs : List Str) : Prop := ∀ s ∈ srcs, refusal archive s = none ∧ ∃ data, w (classify s).2 = some data
 
 def contentOf (w : World) (s : Str) : Bytes := (w (classify s).2).getD []
 
@@ -31,15 +32,15 @@ theorem laidOut_append (a b : List Bytes) : laidOut (a ++ b) = laidOut a ++ laid
 
 theorem fileRaw_ne_nil (d : Desc) (data : Bytes) : fileRaw d data ≠ [] := by simp [fileRaw]
 
-theorem injectLoop_ok {N : Nat} (w : World) (srcs : List Str) : ∀ (t : TapeW) (l : Listener) (out : List Str) (w0 : Bytes),
-    AllReadable w srcs → Written N t w0 → w0.length + totalLen (allRaw w srcs) < N →
-    ∃ t', injectLoop w t l out srcs = (.ret 0, out ++ reportLines w l.verbose l.blockIndex srcs, some t')
+theorem injectLoop_ok {N : Nat} (w : World) (archive : Str) (srcs : List Str) : ∀ (t : TapeW) (l : Listener) (out : List Str) (w0 : Bytes),
+    AllReadable w archive srcs → Written N t w0 → w0.length + totalLen (allRaw w srcs) < N →
+    ∃ t', injectLoop w archive t l out srcs = (.ret 0, out ++ reportLines w l.verbose l.blockIndex srcs, some t')
       ∧ Written N t' (w0 ++ laidOut (allRaw w srcs)) := by
   induction srcs with
   | nil => intro t l out w0 _ hw _; exact ⟨t, by simp [injectLoop, reportLines], by simpa [allRaw, laidOut] using hw⟩
   | cons s rest ih =>
     intro t l out w0 hr hw hfit
-    obtain ⟨data, hdata⟩ := hr s (by simp)
+    obtain ⟨hacc, data, hdata⟩ := hr s (by simp)
     have hc : contentOf w s = data := by simp [contentOf, hdata]
     have hraw : rawOf w s = fileRaw (classify s).1 data := by simp [rawOf, hc]
     simp only [allRaw, List.flatMap_cons] at hfit ⊢
@@ -52,17 +53,17 @@ theorem injectLoop_ok {N : Nat} (w : World) (srcs : List Str) : ∀ (t : TapeW) 
       (w0 ++ laidOut (rawOf w s)) (fun s' hs' => hr s' (by simp [hs'])) hw1
       (by rw [List.length_append, laidOut_length]; simp only [allRaw]; omega)
     refine ⟨t2, ?_, ?_⟩
-    · simp only [injectLoop, hone, e2, reportLines, hc, hv, hbi, hraw, List.append_assoc, List.cons_append, List.nil_append]
+    · simp only [injectLoop, hacc, hone, e2, reportLines, hc, hv, hbi, hraw, List.append_assoc, List.cons_append, List.nil_append]
     · rw [laidOut_append, ← List.append_assoc]; exact hw2
 
-theorem injectLoop_overflow {N : Nat} (w : World) (srcs : List Str) : ∀ (t : TapeW) (l : Listener) (out : List Str) (w0 : Bytes),
-    AllReadable w srcs → Written N t w0 → srcs ≠ [] → ¬ (w0.length + totalLen (allRaw w srcs) < N) →
-    ∃ out', injectLoop w t l out srcs = (.ret 1, out' ++ [tooMuch], none) := by
+theorem injectLoop_overflow {N : Nat} (w : World) (archive : Str) (srcs : List Str) : ∀ (t : TapeW) (l : Listener) (out : List Str) (w0 : Bytes),
+    AllReadable w archive srcs → Written N t w0 → srcs ≠ [] → ¬ (w0.length + totalLen (allRaw w srcs) < N) →
+    ∃ out', injectLoop w archive t l out srcs = (.ret 1, out' ++ [tooMuch], none) := by
   induction srcs with
   | nil => intro _ _ _ _ _ _ h; exact absurd rfl h
   | cons s rest ih =>
     intro t l out w0 hr hw _ hfit
-    obtain ⟨data, hdata⟩ := hr s (by simp)
+    obtain ⟨hacc, data, hdata⟩ := hr s (by simp)
     have hc : contentOf w s = data := by simp [contentOf, hdata]
     have hraw : rawOf w s = fileRaw (classify s).1 data := by simp [rawOf, hc]
     simp only [allRaw, List.flatMap_cons] at hfit
@@ -79,10 +80,10 @@ theorem injectLoop_overflow {N : Nat} (w : World) (srcs : List Str) : ∀ (t : T
       obtain ⟨out', e⟩ := ih t1 l1 (out ++ [lineOf l.verbose (classify s).1 (l.blockIndex + 1) data.length (dataBlocks data.length data).length])
         (w0 ++ laidOut (rawOf w s)) (fun s' hs' => hr s' (by simp [hs'])) hw1 hrest
         (by rw [List.length_append, laidOut_length]; simp only [allRaw]; omega)
-      exact ⟨out', by simp only [injectLoop, hone, e]⟩
+      exact ⟨out', by simp only [injectLoop, hacc, hone, e]⟩
     · have := writeAll_none (rawOf w s) hw (by rw [hraw]; exact fileRaw_ne_nil _ _) hfile
       rw [← hraw, this] at hspec
-      exact ⟨out, by simp only [injectLoop, hspec, tooMuch]⟩
+      exact ⟨out, by simp only [injectLoop, hacc, hspec, tooMuch]⟩
 
 theorem injectOne_ok_readable (w : World) (t : TapeW) (l : Listener) (s : Str) {t' l' line}
     (h : injectOne w t l s = .ok t' l' line) : ∃ data, w (classify s).2 = some data := by
@@ -98,14 +99,18 @@ theorem injectOne_ok_readable (w : World) (t : TapeW) (l : Listener) (s : Str) {
     | some data => exact ⟨data, rfl⟩
 
 /-- an unreadable source anywhere in the list: no archive, and never status 0 -/
-theorem injectLoop_missing (w : World) (srcs : List Str) : ∀ (t : TapeW) (l : Listener) (out : List Str),
+theorem injectLoop_missing (w : World) (archive : Str) (srcs : List Str) : ∀ (t : TapeW) (l : Listener) (out : List Str),
     (∃ s ∈ srcs, w (classify s).2 = none) →
-    (injectLoop w t l out srcs).2.2 = none ∧ (injectLoop w t l out srcs).1 ≠ .ret 0 := by
+    (injectLoop w archive t l out srcs).2.2 = none ∧ (injectLoop w archive t l out srcs).1 ≠ .ret 0 := by
   induction srcs with
   | nil => intro _ _ _ ⟨s, hs, _⟩; simp at hs
   | cons s rest ih =>
     intro t l out ⟨s', hs', hm⟩
     simp only [injectLoop]
+    cases refusal archive s with
+    | some e => simp
+    | none =>
+    dsimp only
     cases hone : injectOne w t l s with
     | overflow => simp
     | missing => simp
@@ -117,5 +122,29 @@ theorem injectLoop_missing (w : World) (srcs : List Str) : ∀ (t : TapeW) (l : 
         · subst h; rw [hd] at hm; cases hm
         · exact h
       exact ih t1 l1 (out ++ [line]) ⟨s', this, hm⟩
+
+/-- a refused source anywhere in the list (it is the archive itself, or its name is not ascii): no archive,
+    and never status 0 -/
+theorem injectLoop_refused (w : World) (archive : Str) (srcs : List Str) : ∀ (t : TapeW) (l : Listener) (out : List Str),
+    (∃ s ∈ srcs, refusal archive s ≠ none) →
+    (injectLoop w archive t l out srcs).2.2 = none ∧ (injectLoop w archive t l out srcs).1 ≠ .ret 0 := by
+  induction srcs with
+  | nil => intro _ _ _ ⟨s, hs, _⟩; simp at hs
+  | cons s rest ih =>
+    intro t l out ⟨s', hs', hm⟩
+    simp only [injectLoop]
+    cases hr : refusal archive s with
+    | some e => simp
+    | none =>
+      dsimp only
+      have : s' ∈ rest := by
+        simp only [List.mem_cons] at hs'
+        rcases hs' with h | h
+        · subst h; exact absurd hr hm
+        · exact h
+      cases hone : injectOne w t l s with
+      | overflow => simp
+      | missing => simp
+      | ok t1 l1 line => exact ih t1 l1 (out ++ [line]) ⟨s', this, hm⟩
 
 end Moto.Tape
